@@ -270,6 +270,7 @@ func (r *Run) assumeRaw(c *smt.Term) {
 
 func (r *Run) check(vars []*smt.Term, extra ...*smt.Term) (smt.Result, map[string]uint64) {
 	r.res.NewQueries++
+	r.res.ForkSites["Q:"+r.lastFn]++
 	t0 := time.Now()
 	res, m := r.S.Check(vars, extra...)
 	if d := time.Since(t0); r.E.Cfg.RecordQueries && d > r.E.Cfg.SlowQuery && r.E.Cfg.SlowQuery > 0 {
